@@ -191,21 +191,24 @@ Section Scheme.
       cbn [app]. rewrite chunks_concat by exact HS. reflexivity.
     Qed.
 
-    (* Decrypt accepts every document of the published format (any manifest, file key, nonce
-       prefix, either cipher), however the source delivers it, and returns the plaintext. *)
-    Theorem decrypt_accepts_spec v S H unwrap optkn sc m fk p :
-      0 < S -> manifest_bytes_ok m -> manifest_valid m = true ->
-      ends_eof sc = true -> data_of sc = encrypt_doc C S m fk p ->
-      length (spec_header C fk (manifest_json C m)) <= H ->
+    (* Decrypt accepts every document of the published format, however its manifest line is
+       written: [man] is ANY text the manifest parser reads as [m] (any member order,
+       insignificant whitespace, any string escapes - the README fixes none of these and says
+       the MAC is over the bytes as written), any file key, nonce prefix, either cipher, and
+       however the source delivers the document. *)
+    Theorem decrypt_accepts_text v S H unwrap optkn sc man m fk p :
+      0 < S -> parse_manifest C man = Some m -> no_nl man -> man <> [] ->
+      manifest_valid m = true ->
+      ends_eof sc = true -> data_of sc = encrypt_doc_text C S man m fk p ->
+      length (spec_header C fk man) <= H ->
       dec_key_name optkn m <> [] ->
       unwrap (m_wfk m) (kwalg_name (m_kw m)) (dec_key_name optkn m) = (fk, false) ->
       length fk = 32 ->
       (N.of_nat (length p) <= N.of_nat S * 4294967296)%N ->
       decrypt_stream C v S H unwrap optkn sc = DecStream p SClean.
     Proof.
-      intros HS Hbytes Hvalid Heof Hdata HlenH Hkn Hunwrap Hfk Hb.
-      unfold encrypt_doc in Hdata.
-      set (man := manifest_json C m) in *.
+      intros HS Hparse Hnl Hne Hvalid Heof Hdata HlenH Hkn Hunwrap Hfk Hb.
+      unfold encrypt_doc_text in Hdata.
       set (mac := b64e C (hmac C (spec_mac_key C fk) (spec_signed_part man))) in *.
       assert (Hhdr : spec_header C fk man
                      = scheme_name ++ [10%N] ++ man ++ [10%N] ++ mac ++ [10%N]).
@@ -214,21 +217,19 @@ Section Scheme.
         repeat rewrite <- app_assoc. reflexivity. }
       rewrite Hhdr in Hdata, HlenH. rewrite <- hdr_assoc in Hdata.
       destruct (read_header_complete H sc man mac _ Hdata) as (r' & Hrh & Hpay & Heof').
-      - apply manifest_json_no_nl, Hok.
+      - exact Hnl.
       - apply b64e_no_nl, Hok.
-      - apply manifest_json_nonempty.
+      - exact Hne.
       - apply (ok_b64_nonempty C Hok), (ok_hmac_nonempty C Hok).
       - exact HlenH.
-      - unfold decrypt_stream. rewrite Hrh.
-        unfold man at 1. rewrite (parse_manifest_json C Hok m Hbytes).
+      - unfold decrypt_stream. rewrite Hrh. rewrite Hparse.
         rewrite Hvalid. cbn [negb].
         fold (dec_key_name optkn m).
         destruct (dec_key_name optkn m) as [|k0 kn] eqn:Ekn; [congruence|].
         cbn [is_nil]. rewrite Hunwrap.
         rewrite Hfk. cbn [Nat.eqb negb orb].
-        assert (Hfailed : (match v with Original => false | Fixed => false end) = false)
+        replace (match v with Original => false | Fixed => false end) with false
           by (destruct v; reflexivity).
-        replace (match v with Original => false | Fixed => false end) with false.
         assert (Hver : verify_header C fk man mac = Some true).
         { unfold verify_header, mac.
           rewrite (ok_b64_roundtrip C Hok) by apply (ok_hmac_bytes C Hok).
@@ -240,6 +241,48 @@ Section Scheme.
         rewrite (payload_roundtrip S (m_cph m) fk (m_np m) p (script r')); try assumption.
         + reflexivity.
         + rewrite Heof'. exact Heof.
+    Qed.
+
+    (* ... in particular for Go's own serialisation of the manifest ... *)
+    Theorem decrypt_accepts_spec v S H unwrap optkn sc m fk p :
+      0 < S -> manifest_bytes_ok m -> manifest_valid m = true ->
+      ends_eof sc = true -> data_of sc = encrypt_doc C S m fk p ->
+      length (spec_header C fk (manifest_json C m)) <= H ->
+      dec_key_name optkn m <> [] ->
+      unwrap (m_wfk m) (kwalg_name (m_kw m)) (dec_key_name optkn m) = (fk, false) ->
+      length fk = 32 ->
+      (N.of_nat (length p) <= N.of_nat S * 4294967296)%N ->
+      decrypt_stream C v S H unwrap optkn sc = DecStream p SClean.
+    Proof.
+      intros HS Hbytes Hvalid Heof Hdata HlenH Hkn Hunwrap Hfk Hb.
+      apply decrypt_accepts_text with (man := manifest_json C m) (m := m) (fk := fk); try assumption.
+      - apply (parse_manifest_json C Hok). exact Hbytes.
+      - apply manifest_json_no_nl, Hok.
+      - apply manifest_json_nonempty.
+    Qed.
+
+    (* ... and for every other serialisation of the family [manifest_text]: members in any
+       order, whitespace (space, tab, carriage return) at every place JSON allows it, the key
+       name escaped Go's way, minimally (with \/ and literal & < >) or as \u00XX. *)
+    Theorem decrypt_accepts_styles v S H unwrap optkn sc sty m fk p :
+      0 < S -> manifest_bytes_ok m -> manifest_valid m = true ->
+      Forall (fun b => is_ws b = true) (ms_ws sty) -> NoDup (ms_order sty) ->
+      (forall f, f <> FK -> In f (ms_order sty)) -> (In FK (ms_order sty) \/ m_k m = []) ->
+      ends_eof sc = true ->
+      data_of sc = encrypt_doc_text C S (manifest_text C sty m) m fk p ->
+      length (spec_header C fk (manifest_text C sty m)) <= H ->
+      dec_key_name optkn m <> [] ->
+      unwrap (m_wfk m) (kwalg_name (m_kw m)) (dec_key_name optkn m) = (fk, false) ->
+      length fk = 32 ->
+      (N.of_nat (length p) <= N.of_nat S * 4294967296)%N ->
+      decrypt_stream C v S H unwrap optkn sc = DecStream p SClean.
+    Proof.
+      intros HS Hbytes Hvalid Hws Hnd Hall Hk Heof Hdata HlenH Hkn Hunwrap Hfk Hb.
+      apply decrypt_accepts_text with (man := manifest_text C sty m) (m := m) (fk := fk);
+        try assumption.
+      - apply (parse_manifest_text C Hok); assumption.
+      - apply (manifest_text_no_nl C Hok). exact Hws.
+      - apply manifest_text_nonempty.
     Qed.
 
     (* Round trip: what Encrypt produced for options [o] over ANY read script [sc] of the
@@ -271,5 +314,39 @@ Section Scheme.
           destruct wfk; [congruence|reflexivity].
         + rewrite Hmwfk. exact Hunwrap.
     Qed.
+
+    (* Round trip through the caller's callbacks: the wrap callback is invoked with the file
+       key, the un-aliased algorithm and opts.KeyName (never DecryptionKeyName); if the unwrap
+       callback gives the file key back for what it returned, under the name Decrypt uses (the
+       caller's, else the manifest's), the plaintext comes back - for every chunking on both
+       sides. *)
+    Theorem roundtrip_callbacks v S H o fk np wfk sc wrap unwrap optkn m :
+      0 < S -> length fk = 32 -> length np = 7 -> bytes_ok np = true ->
+      spec_manifest o np wfk = Some m ->
+      wrap fk (kwalg_name (m_kw m)) (eo_keyname o) = Some wfk ->
+      wfk <> [] -> bytes_ok wfk = true ->
+      length (spec_header C fk (manifest_json C m)) <= H ->
+      ends_eof sc = true ->
+      (N.of_nat (length (data_of sc)) <= N.of_nat S * 4294967296)%N ->
+      dec_key_name optkn m <> [] ->
+      unwrap wfk (kwalg_name (m_kw m)) (dec_key_name optkn m) = (fk, false) ->
+      exists d, encrypt_stream_w C S H o fk np wrap sc = EncStream d SClean /\
+                forall sc', ends_eof sc' = true -> data_of sc' = d ->
+                            decrypt_stream C v S H unwrap optkn sc' = DecStream (data_of sc) SClean.
+    Proof.
+      intros HS Hfk Hnp Hnpb Hm Hwrap Hwfk Hwfkb HH Heof Hb Hkn Hunwrap.
+      destruct (roundtrip v S H o fk np wfk sc unwrap optkn m) as (d & Henc & Hdec); try assumption.
+      exists d. split; [|exact Hdec].
+      unfold encrypt_stream_w.
+      pose proof Hm as Hm'. rewrite <- encrypt_manifest_spec_h in Hm'.
+      destruct (alias_wrap_args _ _ _ _ Hm') as [Hargs _].
+      rewrite Hargs, Hwrap. exact Henc.
+    Qed.
+
+    (* ... and when the wrap callback fails, Encrypt fails. *)
+    Theorem wrap_failure_is_encrypt_failure S H o fk np wrap sc alg kn :
+      encrypt_wrap_args o = Some (alg, kn) -> wrap fk alg kn = None ->
+      encrypt_stream_w C S H o fk np wrap sc = EncCallError.
+    Proof. intros Ha Hw. unfold encrypt_stream_w. rewrite Ha, Hw. reflexivity. Qed.
   End WithPremises.
 End Scheme.
